@@ -198,5 +198,20 @@ func GenC05(r *core.Rand, tier string) core.Schedule {
 			startedF = true
 		}
 	}
+	if r.Chance(0.08) {
+		// closing phase: tables deleted on the leader disappear on the followers - some of them or all,
+		// down to the last one (a follower left with tables while the leader has none must drop them too).
+		// Nothing is written or created afterwards, so no incarnation question arises.
+		all := r.Chance(0.6)
+		if !startedF {
+			steps = append(steps, Step{Op: "startfollowers"})
+		}
+		for t := 0; t < created; t++ {
+			if all || r.Chance(0.5) {
+				steps = append(steps, Step{Op: "delete", N: r.Intn(cfg.Leaders), T: t})
+			}
+		}
+		steps = append(steps, Step{Op: "advance", Ms: 5009})
+	}
 	return &Sched{Cfg: *cfg, Steps: steps}
 }
